@@ -13,6 +13,7 @@ import (
 	"regexp"
 	"strings"
 	"sync"
+	"sync/atomic"
 	"time"
 )
 
@@ -315,6 +316,18 @@ func runSolver(ctx context.Context, s, query string, timeout time.Duration, want
 	return "error", strings.TrimSpace(text), ms
 }
 
+// Second attempts are for the odd obligation that a loaded machine or an unlucky seed left undecided on a tree where
+// everything else is proved. A tree on which many obligations fail is not helped by them and must not be slowed down:
+// a run gets a budget (long: after a timeout, twice the time; short: after a quick `unknown`, 10 s).
+var retryLong, retryShort int32
+
+func retryAllowed(afterTimeout bool) bool {
+	if afterTimeout {
+		return atomic.AddInt32(&retryLong, 1) <= 6
+	}
+	return atomic.AddInt32(&retryShort, 1) <= 40
+}
+
 // discharge races the solvers on one obligation.
 func discharge(o *Obligation, timeout time.Duration, solvers []string, extra []string) {
 	if o.Result == "trivial" {
@@ -368,7 +381,7 @@ func discharge(o *Obligation, timeout time.Duration, solvers []string, extra []s
 			}
 		}
 	}
-	if final.r != "unsat" && !(final.r == "sat" && ground) && !o.ShortTimeout && len(solvers) > 1 && !strings.HasPrefix(o.Kind, "vacuity") && o.Kind != "cover" {
+	if final.r != "unsat" && !(final.r == "sat" && ground) && !o.ShortTimeout && len(solvers) > 1 && !strings.HasPrefix(o.Kind, "vacuity") && o.Kind != "cover" && retryAllowed(strings.Contains(strings.Join(detail, " "), "=timeout(")) {
 		// nothing decided it: one more attempt with the two z3 versions under a different random seed (an `unsat` is a proof
 		// whatever the seed; a goal that is really violated stays undecided)
 		// a timeout (rather than a quick `unknown`) may be the machine's load and not the goal: give the second attempt
